@@ -802,4 +802,49 @@ theorem codev_preamble_roundtrip (cs : List (List Char))
 
 example : cvPreamble [' ', '!', 'a', '\n', '!', '\n', 'T', ' ', '1', '\n', 'G', '\n', '5', '\n'] = some (['T', ' ', '1'], ['G'], ['5', '\n']) := by decide
 example : cvPreamble ['!', ' ', 'a'] = none := by decide
+
+/-! ## order-free Code V headers; frame selection (session 3, second pass) -/
+
+/-- the keyword scan accepts ANY sequence of keyword groups (a keyword of the table followed by as many values as the table
+says) — in any order, any number of them: acceptance does not depend on the order the writer happens to use -/
+theorem acceptsHeader_groups (table : List (String × Nat)) (gs : List (String × List String))
+    (h : ∀ g ∈ gs, ∃ p, table.find? (fun p => p.1 == g.1) = some p ∧ p.2 = g.2.length)
+    (fuel : Nat) (hf : gs.length ≤ fuel) :
+    acceptsHeader table fuel (gs.flatMap fun g => g.1 :: g.2) = true := by
+  induction gs generalizing fuel with
+  | nil => cases fuel <;> simp [acceptsHeader]
+  | cons g gs ih =>
+    cases fuel with
+    | zero => simp at hf
+    | succ f =>
+      obtain ⟨p, hp, hl⟩ := h g (by simp)
+      simp only [List.flatMap_cons, List.cons_append, acceptsHeader, hp, hl, List.length_append, List.drop_left]
+      simp only [ge_iff_le, Nat.le_add_right, decide_true, Bool.true_and]
+      exact ih (fun x hx => h x (by simp [hx])) f (by simpa using hf)
+
+/-- Code V headers in any keyword order: every header made of keyword groups of the reader's GENERATED table is accepted,
+whatever their order (the writer's order, any permutation of it, other programs' orders); the keyword test of the source
+is on the upper-cased token (the translator only recognises `params[i].upper() == KEY` tests), so case is immaterial too -/
+theorem codev_header_order_free (gs : List (String × List String))
+    (h : ∀ g ∈ gs, cvReaderTokens.find? (fun p => p.1 == g.1) = some (g.1, g.2.length)) :
+    acceptsHeader cvReaderTokens gs.length (gs.flatMap fun g => g.1 :: g.2) = true :=
+  acceptsHeader_groups cvReaderTokens gs (fun g hg => ⟨_, h g hg, rfl⟩) gs.length (Nat.le_refl _)
+
+example : ∀ g ∈ [("NDA", ["-32768"]), ("SSZ", ["2.5"]), ("WVL", ["0.5"]), ("SUR", []), ("GRD", ["3", "2"])],
+    cvReaderTokens.find? (fun p => p.1 == g.1) = some (g.1, g.2.length) := by decide
+
+/-- frame selection over the GENERATED action table: `first` returns frame 0 and `last` frame `ib − 1` of the `ib ≥ 1` frames
+of `px` pixels each (Python index −1), `avg` is the per-pixel mean branch -/
+theorem select_frame_first_last (ib px : Nat) (raw : Array Nat) (hib : 1 ≤ ib) :
+    (zygoFrameSel.lookup "first").map (fun s => selectFrame s ib px raw)
+      = some ((List.range px).map fun i => Float.ofNat (raw.getD (0 * px + i) 0)) ∧
+    (zygoFrameSel.lookup "last").map (fun s => selectFrame s ib px raw)
+      = some ((List.range px).map fun i => Float.ofNat (raw.getD ((ib - 1) * px + i) 0)) ∧
+    zygoFrameSel.lookup "avg" = some none := by
+  have e : zygoFrameSel = modelFrameSel := by decide
+  have h1 : (((ib : Int) + -1).toNat) = ib - 1 := by omega
+  rw [e]
+  refine ⟨?_, ?_, by decide⟩
+  · simp [modelFrameSel, List.lookup, selectFrame]
+  · simp [modelFrameSel, List.lookup, selectFrame, h1]
 end C14
